@@ -136,6 +136,16 @@ func Universe(name string, size string, seed int64) []RawKey {
 		u = append(u, rp(p10+"xy"), rp(p10+"xZa"), rp(p10+"xyg"), rp(p10+"x"), rp(p10), rp(p10+"y"))
 		return u
 
+	case "lfan20":
+		// twenty continuations below a 12-byte shared path: the branch point below an optimistic (longer than inline)
+		// path goes 4 -> 16 -> 48 slots and back, so every resize has to carry the true path length along
+		var u []RawKey
+		for i := 0; i < 20; i++ {
+			u = append(u, rkb(append([]byte(p10+"xy"), byte('A'+i*3))...))
+		}
+		u = append(u, rp(p10+"xy"), rp(p10+"xZa"), rp(p10+"xy~"), rp(p10+"x"), rp(p10), rp(p10+"xyA1"))
+		return u
+
 	case "fan64":
 		// 64 one-byte keys: a fill/drain cycle crosses 4 -> 16 -> 48 -> 256 (at 49) and back (37, 12, 3) in ~150 operations
 		var u []RawKey
